@@ -1189,3 +1189,211 @@ Section GBS.
     rewrite E. simpl app. exact Ep.
   Qed.
 End GBS.
+
+(* ================================================================== make_contractions *)
+Section MC.
+  Context {C : Type}.
+  Notation contraction := (@contraction C).
+
+  Definition c_place (c : contraction) : nat * C * shell := fst c.
+  Definition c_type (c : contraction) : string := snd c.
+
+  (* where the shells must go: atom after atom, each atom's shells in the order of the dict *)
+  Fixpoint placed_from (d : dict) (ic : nat) (ats : list (string * C)) : list (nat * C * shell) :=
+    match ats with
+    | [] => []
+    | (a, co) :: r =>
+        map (fun sh => (ic, co, sh)) (match dict_find d a with Some s => s | None => [] end)
+        ++ placed_from d (S ic) r
+    end.
+  Definition expand (ct : ctypes) (n : nat) : list string :=
+    match ct with CStr s => repeat s n | CList l => l | CTuple l => l end.
+
+  Lemma place_spec ic co shells : forall types out rest,
+    place ic co shells types = Some (out, rest) ->
+    exists ts, types = ts ++ rest /\ List.length ts = List.length shells /\
+               map c_place out = map (fun sh => (ic, co, sh)) shells /\
+               map (fun c => Some (c_type c)) out = map norm_type ts.
+  Proof.
+    induction shells as [|sh r IH]; intros types out rest H; simpl in H.
+    - inversion H; subst. exists []. auto.
+    - destruct types as [|t ts]; [discriminate|].
+      destruct (norm_type t) as [t'|] eqn:Et; [|discriminate].
+      destruct (place ic co r ts) as [[out' rest']|] eqn:Ep; [|discriminate].
+      inversion H; subst. destruct (IH ts out' rest Ep) as (ts' & -> & Hl & Hp & Hty).
+      exists (t :: ts'). simpl. rewrite Et. unfold c_place, c_type in *. simpl. repeat split; congruence.
+  Qed.
+
+  Lemma place_all_spec d ats : forall ic types out,
+    place_all d ic ats types = Some out ->
+    exists ts rest, types = ts ++ rest /\ List.length ts = List.length out /\
+                    map c_place out = placed_from d ic ats /\
+                    map (fun c => Some (c_type c)) out = map norm_type ts.
+  Proof.
+    induction ats as [|[a co] r IH]; intros ic types out H; simpl in H.
+    - inversion H; subst. exists [], types. auto.
+    - simpl. destruct (dict_find d a) as [shells|]; [|discriminate].
+      destruct (place ic co shells types) as [[o1 rest1]|] eqn:Ep; [|discriminate].
+      destruct (place_all d (S ic) r rest1) as [o2|] eqn:Ea; [|discriminate].
+      inversion H; subst.
+      destruct (place_spec _ _ _ _ _ _ Ep) as (ts1 & -> & Hl1 & Hp1 & Ht1).
+      destruct (IH _ _ _ Ea) as (ts2 & rest & -> & Hl2 & Hp2 & Ht2).
+      assert (List.length o1 = List.length ts1) as Hlo.
+      { rewrite <- (map_length c_place o1), Hp1, map_length. auto. }
+      exists (ts1 ++ ts2), rest. rewrite !map_app, !app_length, Hp1, Hp2, Ht1, Ht2, Hl2, Hlo, <- app_assoc.
+      repeat split; auto.
+  Qed.
+
+  Lemma placed_length d ats : forall ic,
+    List.length (placed_from d ic ats)
+    = list_sum (map (fun ac : string * C => List.length (match dict_find d (fst ac) with Some s => s | None => [] end)) ats).
+  Proof.
+    induction ats as [|[a co] r IH]; intros ic; simpl; auto. rewrite app_length, map_length, IH. reflexivity.
+  Qed.
+
+  Lemma total_shells_sum d atoms (coords : list C) n :
+    List.length atoms = List.length coords -> total_shells d atoms = Some n ->
+    n = list_sum (map (fun ac : string * C => List.length (match dict_find d (fst ac) with Some s => s | None => [] end))
+                      (combine atoms coords)).
+  Proof.
+    unfold total_shells. revert coords n. induction atoms as [|a r IH]; intros coords n Hl H; simpl in *.
+    - inversion H; auto.
+    - destruct coords as [|co cs]; [discriminate|]. simpl in *.
+      destruct (dict_find d a) as [s|]; [|discriminate].
+      destruct (map_opt (dict_find d) r) as [ss|] eqn:E; [|discriminate].
+      inversion H; subst. simpl. f_equal. apply IH; auto.
+  Qed.
+
+  (* atom order, shells of each atom in dict order at that atom's coordinates, icenter = atom index,
+     types assigned shell by shell in order, as many contractions as shells *)
+  Theorem mc_spec d atoms (coords : list C) ct res :
+    fst (make_contractions_model (d, atoms, coords, ct)) = Some res ->
+    List.length atoms = List.length coords /\
+    map c_place res = placed_from d 0 (combine atoms coords) /\
+    map (fun c => Some (c_type c)) res = map norm_type (expand ct (List.length res)) /\
+    total_shells d atoms = Some (List.length res).
+  Proof.
+    unfold make_contractions_model. cbn [fst].
+    destruct (List.length atoms =? List.length coords) eqn:El; [|discriminate]. apply Nat.eqb_eq in El.
+    cbn [negb]. destruct (total_shells d atoms) as [n|] eqn:Et; [|discriminate].
+    assert (forall tl, List.length tl = n -> place_all d 0 (combine atoms coords) tl = Some res ->
+            tl = expand ct (List.length res) ->
+            List.length atoms = List.length coords /\
+            map c_place res = placed_from d 0 (combine atoms coords) /\
+            map (fun c => Some (c_type c)) res = map norm_type (expand ct (List.length res)) /\
+            Some n = Some (List.length res)) as Hmain.
+    { intros tl Hn Hp Hex. destruct (place_all_spec _ _ _ _ _ Hp) as (ts & rest & -> & Hl & Hpl & Hty).
+      assert (List.length res = n) as Hres.
+      { rewrite <- (map_length c_place res), Hpl, placed_length. symmetry. apply total_shells_sum; auto. }
+      assert (rest = []) as ->.
+      { rewrite app_length in Hn. destruct rest; auto. simpl in Hn. lia. }
+      rewrite app_nil_r in *. rewrite <- Hex, Hres. auto. }
+    destruct ct as [s|l|l]; cbn [expand].
+    - destruct (norm_type s) eqn:En; [|discriminate]. rewrite repeat_length, Nat.eqb_refl. cbn [negb].
+      intros Hp. assert (List.length res = n) as Hres.
+      { destruct (place_all_spec _ _ _ _ _ Hp) as (ts & rest & _ & _ & Hpl & _).
+        rewrite <- (map_length c_place res), Hpl, placed_length. symmetry. apply total_shells_sum; auto. }
+      apply (Hmain (repeat s n)); auto; try apply repeat_length; try (rewrite Hres; reflexivity).
+    - destruct (List.length l =? n) eqn:E; [|discriminate]. apply Nat.eqb_eq in E. cbn [negb].
+      intros Hp. apply (Hmain l); auto.
+    - destruct (List.length l =? n) eqn:E; [|discriminate]. apply Nat.eqb_eq in E. cbn [negb].
+      intros Hp. apply (Hmain l); auto.
+  Qed.
+
+  Theorem mc_args_untouched (args : @mc_args C) : snd (make_contractions_model args) = args.
+  Proof. destruct args as [[[d atoms] coords] ct]. reflexivity. Qed.
+
+  Theorem mc_repeatable (args : @mc_args C) :
+    make_contractions_model (snd (make_contractions_model args)) = make_contractions_model args.
+  Proof. rewrite mc_args_untouched. reflexivity. Qed.
+
+  (* a list and a tuple with the same entries give the same contractions *)
+  Theorem mc_list_tuple d atoms (coords : list C) l :
+    fst (make_contractions_model (d, atoms, coords, CList l))
+    = fst (make_contractions_model (d, atoms, coords, CTuple l)).
+  Proof. reflexivity. Qed.
+End MC.
+
+(* ================================================================== the hypotheses are satisfiable *)
+(* a 6-31G-like lithium (S, SP, S, P), a two-column generalized D shell and a K shell, D/E/plain literals *)
+Definition ex_ast : ast :=
+  [("Li", [ {| b_ls := [0]; b_exps := ["0.6424189150D+03"; "0.9679851530D+02"; "0.2209112120D+02"];
+               b_cols := [["0.2142607810D-02"; "0.1620887150D-01"; "0.7731557250D-01"]] |};
+            {| b_ls := [0; 1]; b_exps := ["2.324918408"; "0.6324303556"; "0.07905343475"];
+               b_cols := [["-0.03509174574"; "-0.1912328431"; "1.083987795"];
+                          ["0.008941508043"; "0.1410094640"; "0.9453636953"]] |};
+            {| b_ls := [0]; b_exps := ["0.3596197175E-01"]; b_cols := [["0.1000000000E+01"]] |};
+            {| b_ls := [2]; b_exps := ["1.8190000"; "0.7276000"];
+               b_cols := [["0.27051341"; "0.55101250"]; ["-0.7938035"; "-0.0914252"]] |} ]);
+   ("H",  [ {| b_ls := [0]; b_exps := ["18.73113696"; "2.825394365"; "0.6401216923"];
+               b_cols := [["0.03349460434"; "0.2347269535"; "0.8137573261"]] |};
+            {| b_ls := [0]; b_exps := ["0.1612777588"]; b_cols := [["1.0000000"]] |};
+            {| b_ls := [7]; b_exps := ["1.5E+00"]; b_cols := [["1."]] |} ])].
+
+Definition ex_layout_nw : layout :=
+  {| lay_pre := ["#  6-31G  EMSL  Basis Set Exchange Library"; ""; "BASIS ""ao basis"" PRINT"];
+     lay_post := ["END"; ""];
+     lay_fill := fun pos => match pos with
+                            | [_; 0] => ["#BASIS SET: (10s,4p,2d) -> [3s,2p,1d]"]
+                            | [_; _; 1] => ["   "]
+                            | _ => []
+                            end;
+     lay_pad := fun pos => match pos with [_; _] => (0, 3, 0) | _ => (6, 11, 1) end;
+     lay_lower := fun pos => match pos with [_; 2] => true | _ => false end;
+     lay_tok2 := fun _ => "0"; lay_tok3 := fun _ => "1.00" |}.
+Definition ex_layout_gbs : layout :=
+  {| lay_pre := ["!----------------------------------------"; "! Basis Set Exchange"; ""];
+     lay_post := ["****"];
+     lay_fill := fun pos => match pos with
+                            | [S _] => ["****"]
+                            | [_; _; _; 1] => ["! a comment between two rows"]
+                            | _ => []
+                            end;
+     lay_pad := fun pos => match pos with [_] => (0, 4, 0) | [_; _; _] => (0, 2, 0) | _ => (6, 6, 0) end;
+     lay_lower := fun _ => false;
+     lay_tok2 := fun pos => match pos with [_] => "0" | _ => "3" end;
+     lay_tok3 := fun _ => "1.00" |}.
+(* no preamble at all, no filler, minimal blanks *)
+Definition ex_layout_bare : layout :=
+  {| lay_pre := []; lay_post := []; lay_fill := fun _ => []; lay_pad := fun _ => (0, 0, 0);
+     lay_lower := fun _ => false; lay_tok2 := fun _ => "0"; lay_tok3 := fun _ => "1.00" |}.
+
+Lemma close_lit_refl s : close_lit s s = true.
+Proof. apply String.eqb_refl. Qed.
+Lemma ex_ast_wf : wf_ast ex_ast = true /\ wf_ast_gbs close_lit ex_ast = true.
+Proof. split; vm_compute; reflexivity. Qed.
+Ltac by_cases_on_pos :=
+  intros pos; cbn [lay_fill lay_tok2 lay_tok3 ex_layout_nw ex_layout_gbs ex_layout_bare];
+  repeat match goal with
+         | |- context [match ?x with _ => _ end] => is_var x; destruct x
+         end; reflexivity.
+Lemma ex_layout_nw_ok : layout_ok_nw ex_layout_nw /\ layout_ok_nw ex_layout_bare.
+Proof.
+  split; (split; [vm_compute; reflexivity | split; [vm_compute; reflexivity|]]); by_cases_on_pos.
+Qed.
+Lemma ex_layout_gbs_ok : layout_ok_gbs ex_layout_gbs /\ layout_ok_gbs ex_layout_bare.
+Proof.
+  split; (split; [vm_compute; reflexivity | split; [vm_compute; reflexivity|]]);
+    (split; [|split]); by_cases_on_pos.
+Qed.
+(* the theorems, instantiated, agree with direct evaluation *)
+Lemma ex_roundtrips :
+  parse_nwchem_model (print_nwchem ex_ast ex_layout_nw) = Some (expected ex_ast) /\
+  parse_nwchem_model (print_nwchem ex_ast ex_layout_bare) = Some (expected ex_ast) /\
+  parse_gbs_model close_lit (print_gbs ex_ast ex_layout_gbs) = Some (expected ex_ast) /\
+  parse_gbs_model close_lit (print_gbs ex_ast ex_layout_bare) = Some (expected ex_ast) /\
+  List.length (expected_shells (snd (hd ("", []) ex_ast))) = 5.
+Proof. repeat split; vm_compute; reflexivity. Qed.
+
+(* make_contractions on the example: H Li H, types given as a tuple in mixed spellings *)
+Lemma ex_make_contractions :
+  exists res,
+    fst (make_contractions_model (C := nat)
+           (expected ex_ast, ["H"; "Li"; "H"], [10; 11; 12],
+            CTuple ["c"; "p"; "spherical"; "cartesian"; "c"; "p"; "p"; "c"; "spherical"; "p"; "c"])) = Some res /\
+    List.length res = 11 /\
+    map (fun c => fst (fst (fst c))) res = [0; 0; 0; 1; 1; 1; 1; 1; 2; 2; 2] /\
+    map (fun c => snd (fst (fst c))) res = [10; 10; 10; 11; 11; 11; 11; 11; 12; 12; 12] /\
+    map snd res = ["cartesian"; "spherical"; "spherical"; "cartesian"; "cartesian"; "spherical"; "spherical";
+                   "cartesian"; "spherical"; "spherical"; "cartesian"].
+Proof. eexists. repeat split; vm_compute; reflexivity. Qed.
